@@ -441,7 +441,7 @@ macro_rules! plan_harness {
 		}
 	};
 }
-fn mk_hash_column(bits: u8, ref_counted: bool) -> HashColumn {
+pub(crate) fn mk_hash_column(bits: u8, ref_counted: bool) -> HashColumn {
 	let path = std::path::PathBuf::new();
 	HashColumn {
 		col: 0,
@@ -1070,6 +1070,80 @@ growth_harness!(#[kani::unwind(8)] #[kani::stub(super::HashColumn::search_index,
 	}
 	std::mem::forget(tl);
 	std::mem::forget(rl);
+});
+
+// ================================================================== U29: point reads search the current index, then every queued older index
+pub(crate) static mut GI_N: usize = 0;
+pub(crate) static mut GI_BITS: [u8; 4] = [0; 4];
+pub(crate) static mut GI_HIT: [bool; 4] = [false; 4];
+pub(crate) static mut GI_RC: [u32; 4] = [0; 4];
+// HashColumn::get_in_index by contract (U13, Verus): "the value stored for this key in this index, if any"
+pub(crate) fn stub_get_in_index<L: LogQuery>(_c: &HashColumn, _key: &Key, index: &IndexTable, _tables: TablesRef, _log: &L) -> Result<Option<(u8, u32, Value)>> {
+	unsafe {
+		assert!(GI_N < 4, "verif: too many index lookups");
+		let n = GI_N;
+		GI_BITS[n] = index.id.index_bits();
+		GI_N += 1;
+		if GI_HIT[n] {
+			Ok(Some((n as u8, GI_RC[n], vec![0xa0 + n as u8, 7])))
+		} else {
+			Ok(None)
+		}
+	}
+}
+growth_harness!(#[kani::unwind(8)] #[kani::stub(super::HashColumn::get_in_index, stub_get_in_index)] u29_get_searches_current_then_every_queued_index, {
+	let col = std::mem::ManuallyDrop::new(mk_growing_column(0));
+	unsafe {
+		GI_N = 0;
+		GI_HIT = [kani::any(), kani::any(), kani::any(), false];
+		GI_RC = [kani::any(), kani::any(), kani::any(), 0];
+	}
+	let key: Key = kani::any();
+	let log = crate::index::verif_index::GhostLog;
+	let r = ok(col.get(&key, &log));
+	let (h0, h1, h2) = unsafe { (GI_HIT[0], GI_HIT[1], GI_HIT[2]) };
+	let n = unsafe { GI_N };
+	assert!(unsafe { GI_BITS[0] } == 18, "U29.get.current_index_first");
+	if n > 1 {
+		assert!(unsafe { GI_BITS[1] } == 16, "U29.get.then_oldest_queued_index");
+	}
+	if n > 2 {
+		assert!(unsafe { GI_BITS[2] } == 17, "U29.get.then_every_later_queued_index");
+	}
+	match r {
+		None => assert!(false, "U29.get.no_error"),
+		Some(Some((v, rc))) => {
+			let first = if h0 { 0 } else if h1 { 1 } else { 2 };
+			assert!(h0 || h1 || h2, "U29.get.hit_only_if_some_index_has_the_key");
+			assert!(n == first + 1, "U29.get.first_index_holding_the_key_wins");
+			assert!(v.len() == 2 && v[0] == 0xa0 + first as u8 && v[1] == 7, "U29.get.returns_that_index_value");
+			assert!(rc == unsafe { GI_RC[first] }, "U29.get.returns_that_index_ref_count");
+			std::mem::forget(v);
+		},
+		Some(None) => {
+			assert!(!h0 && !h1 && !h2, "U29.get.absent_only_if_no_index_has_the_key");
+			assert!(n == 3, "U29.get.every_queued_index_is_consulted_before_reporting_absent");
+		},
+	}
+	kani::cover!(h1 && !h0, "reached");
+});
+growth_harness!(#[kani::unwind(8)] #[kani::stub(super::HashColumn::get_in_index, stub_get_in_index)] u29_get_size_is_the_length_of_the_value, {
+	let col = std::mem::ManuallyDrop::new(mk_growing_column(0));
+	unsafe {
+		GI_N = 0;
+		GI_HIT = [kani::any(), kani::any(), kani::any(), false];
+		GI_RC = [1, 1, 1, 0];
+	}
+	let key: Key = kani::any();
+	let overlays: &'static RwLock<crate::log::LogOverlays> = Box::leak(Box::new(RwLock::new(crate::log::LogOverlays::with_columns(0))));
+	let r = ok(col.get_size(&key, overlays));
+	let any_hit = unsafe { GI_HIT[0] || GI_HIT[1] || GI_HIT[2] };
+	match r {
+		None => assert!(false, "U29.get_size.no_error"),
+		Some(Some(n)) => assert!(any_hit && n == 2, "U29.get_size.is_the_length_of_the_value_get_returns"),
+		Some(None) => assert!(!any_hit, "U29.get_size.absent_iff_get_is_absent"),
+	}
+	kani::cover!(any_hit, "reached");
 });
 
 /*@@GENERATED:column@@*/
